@@ -118,7 +118,11 @@ def p_not_none(x):
     return x is not None
 
 
-PREDS = {"is_none": p_is_none, "truthy": p_truthy, "is_str": p_is_str, "lt1": p_lt1, "not_none": p_not_none}
+def p_any(x):
+    return True
+
+
+PREDS = {"is_none": p_is_none, "truthy": p_truthy, "is_str": p_is_str, "lt1": p_lt1, "not_none": p_not_none, "any": p_any}
 
 # helper predicates: python reference semantics with the documented operand order (input OP parameter)
 HELPER_REF = {
